@@ -37,8 +37,8 @@ vars == <<veh, st, bs, req, seen, now, ph, todo, order, hist>>
 \* the controller's / environment's choices, exported as schedules for the real code (never read by any action)
 Log(rec) == hist' = IF RecordHist THEN Append(hist, rec) ELSE hist
 
-S0 == [veh |-> veh, st |-> st, bs |-> bs, req |-> req, now |-> now]
-S1 == [veh |-> veh', st |-> st', bs |-> bs', req |-> req', now |-> now']
+S0 == [veh |-> veh, st |-> st, bs |-> bs, req |-> req, now |-> now, ord |-> VRank]
+S1 == [veh |-> veh', st |-> st', bs |-> bs', req |-> req', now |-> now', ord |-> VRank]
 
 Road == "road"          \* en route: co-located with no entity
 LinkOf(c) == c          \* entities sit on the link named after their cell; a vehicle that moved is on "x"
@@ -236,7 +236,7 @@ InvB_C02 == AtBoundary => Inv_C02
 InvB_C07 == AtBoundary => Inv_C07
 InvB_C17 == AtBoundary => Inv_C17
 
-Step_C18 == ph = "upd" => \A v \in Vehicles : C18_Step(S0, S1, v, VLess) = {}
+Step_C18 == ph \in {"upd", "instr"} => \A v \in Vehicles : C18_Step(S0, S1, v, VLess, "") = {}
 Step_C03 == ph = "instr" => \A v \in Vehicles : C03_NoDivert(S0, S1, v) = {}
 Step_C10 == C10_Step(S0, S1) = {}
 Prop_C18 == [][Step_C18]_vars
